@@ -12,6 +12,7 @@ import SupervisorModel.Props.C16
     fault codes      fault_codes_documented, faults_distinct
     multicall        multicall_sequential, multicall_recursion_refused, multicall_elements
     answers          never_500_partial, log_methods_answer (what IS proved of "never an HTTP 500")
+    framing          immediate_content_length, deferred_content_length (F42, fixed)
 -/
 set_option linter.unusedSimpArgs false
 namespace Sv.Props.C12
@@ -647,6 +648,55 @@ theorem never_500_partial {σ ν : Type} (tbl : Table (Method σ ν)) (nm : Name
 example : ∃ name g, (name, g) ∈ gateTable ∧ gateOk g = true := ⟨"startProcess", .first, by decide, by decide⟩
 example : Documented (σ := Nat) (ofAns (ν := Bytes) id (RpcLog.readLog RpcLog.pyDecoders 1 (.present [0x61, 0xc3]) 0 0)) :=
   (log_methods_answer (σ := Nat) id (fun _ => []) RpcLog.pyDecoders 1 true (.present [0x61, 0xc3]) 0 0).1
+
+
+/-! ## HTTP framing of the answer: Content-Length counts the bytes on the wire -/
+
+theorem utf8Char_length_pos (c : Char) : 1 ≤ (utf8Char c).length := by
+  unfold utf8Char
+  simp only []
+  repeat' split
+  all_goals simp
+
+theorem utf8Of_length_ge (t : List Char) : t.length ≤ (utf8Of t).length := by
+  induction t with
+  | nil => simp [utf8Of]
+  | cons c r ih =>
+    simp only [utf8Of, List.flatMap_cons, List.length_append, List.length_cons] at ih ⊢
+    have := utf8Char_length_pos c
+    omega
+
+theorem utf8Of_length_ascii (t : List Char) (h : ∀ c ∈ t, c.toNat < 0x80) : (utf8Of t).length = t.length := by
+  induction t with
+  | nil => simp [utf8Of]
+  | cons c r ih =>
+    have hc : c.toNat < 0x80 := h c (by simp)
+    have ih' := ih (fun x hx => h x (by simp [hx]))
+    simp only [utf8Of, List.flatMap_cons, List.length_append, List.length_cons] at ih' ⊢
+    have : (utf8Char c).length = 1 := by simp [utf8Char, hc]
+    omega
+
+/-- **immediate answers.**  For every response text, the Content-Length header of a non-deferred
+    answer is the number of bytes put on the wire, and those bytes are the UTF-8 encoding of the
+    marshalled response; a client reading Content-Length bytes gets the whole body. -/
+theorem immediate_content_length (t : List Char) :
+    (immediateResponse t).wire = utf8Of t ∧
+    (immediateResponse t).contentLength = (immediateResponse t).wire.length ∧
+    clientBody (immediateResponse t) = utf8Of t := by
+  simp [immediateResponse, contReq_a9, contReq_c0_0, clientBody]
+
+/-- **deferred answers.**  The same for `DeferredXMLRPCResponse.more` → `getresponse`: the body is
+    handed over and pushed as text (the request encodes it), and Content-Length is the length of
+    its UTF-8 encoding — for every response text (F42, fixed: the header used to count characters;
+    the input "é" is in the regression corpus). -/
+theorem deferred_content_length (t : List Char) :
+    (deferredResponse t).wire = utf8Of t ∧
+    (deferredResponse t).contentLength = (deferredResponse t).wire.length ∧
+    clientBody (deferredResponse t) = utf8Of t := by
+  simp [deferredResponse, defResp_a1, defResp_c0_0, defMore_c0_0, clientBody]
+
+example : deferredResponse ['é'] = ⟨2, [0xC3, 0xA9]⟩ := by decide
+example : utf8Of ['a', 'é', '€', '😀'] = [0x61, 0xC3, 0xA9, 0xE2, 0x82, 0xAC, 0xF0, 0x9F, 0x98, 0x80] := by decide
 
 -- non-vacuity
 def demoTable : Table (Method Nat Nat) := fun ns =>
